@@ -543,6 +543,13 @@ class SgzReader(object):
             raise IndexError(self.range_error.format(cd_id, -self.n_xlines, self.n_ilines))
 
         max_cd_len = get_correlated_diagonal_length(cd_id, self.n_ilines, self.n_xlines)
+        # A bound given on its own is a window too: the other end is the end of the diagonal / of the trace
+        if min_cd_idx is not None or max_cd_idx is not None:
+            min_cd_idx = 0 if min_cd_idx is None else min_cd_idx
+            max_cd_idx = max_cd_len if max_cd_idx is None else max_cd_idx
+        if min_sample_idx is not None or max_sample_idx is not None:
+            min_sample_idx = 0 if min_sample_idx is None else min_sample_idx
+            max_sample_idx = self.n_samples if max_sample_idx is None else max_sample_idx
         if min_cd_idx is None or max_cd_idx is None:
             cd_len = max_cd_len
             min_cd_idx = 0
@@ -613,6 +620,13 @@ class SgzReader(object):
             raise IndexError(self.range_error.format(ad_id, 0, self.n_ilines + self.n_xlines - 2))
 
         max_ad_len = get_anticorrelated_diagonal_length(ad_id, self.n_ilines, self.n_xlines)
+        # A bound given on its own is a window too: the other end is the end of the diagonal / of the trace
+        if min_ad_idx is not None or max_ad_idx is not None:
+            min_ad_idx = 0 if min_ad_idx is None else min_ad_idx
+            max_ad_idx = max_ad_len if max_ad_idx is None else max_ad_idx
+        if min_sample_idx is not None or max_sample_idx is not None:
+            min_sample_idx = 0 if min_sample_idx is None else min_sample_idx
+            max_sample_idx = self.n_samples if max_sample_idx is None else max_sample_idx
         if min_ad_idx is None or max_ad_idx is None:
             ad_len = max_ad_len
             min_ad_idx = 0
